@@ -63,27 +63,34 @@ variable [Add K] [Mul K] [Neg K] [Zero K] [One K]
 def permMat (σ : Dict) (n : Nat) : M K :=
   M.ofFn n fun r c => if σ.getD c c = r then 1 else 0
 
+/-- identity on `n` modes except the 2×2 block `[[a, b], [c, d]]` on modes `(m1, m2)`
+(written in the order the code assigns the four entries, so for `m1 = m2` the first wins) -/
+def embed2 (n m1 m2 : Nat) (a b c d : K) : M K :=
+  M.ofFn n fun r k =>
+    if r = m1 ∧ k = m1 then a else if r = m1 ∧ k = m2 then b
+    else if r = m2 ∧ k = m1 then c else if r = m2 ∧ k = m2 then d
+    else if r = k then 1 else 0
+
+/-- identity on `n` modes except the diagonal entry `p` on mode `m` -/
+def embed1 (n m : Nat) (p : K) : M K :=
+  M.ofFn n fun r k => if r = k then (if r = m then p else 1) else 0
+
+/-- a `u.n × u.n` block placed on modes `m … m + u.n - 1`, identity elsewhere -/
+def embedBlock (n m : Nat) (u : M K) : M K :=
+  M.ofFn n fun r k =>
+    if m ≤ r ∧ r < m + u.n ∧ m ≤ k ∧ k < m + u.n then u.get (r - m) (k - m)
+    else if r = k then 1 else 0
+
 /-- the `n × n` matrix `get_unitary(n)` of a leaf component; `i : K` is the imaginary unit -/
 def Prim.mat (i : K) (n : Nat) : Prim K → M K
-  | .bs m1 m2 c s .rx => M.ofFn n fun r k =>
-      if r = m1 ∧ k = m1 then c else if r = m1 ∧ k = m2 then i * s
-      else if r = m2 ∧ k = m1 then i * s else if r = m2 ∧ k = m2 then c
-      else if r = k then 1 else 0
-  | .bs m1 m2 c s .h => M.ofFn n fun r k =>
-      if r = m1 ∧ k = m1 then c else if r = m1 ∧ k = m2 then s
-      else if r = m2 ∧ k = m1 then s else if r = m2 ∧ k = m2 then -c
-      else if r = k then 1 else 0
-  | .ps m p => M.ofFn n fun r k => if r = k then (if r = m then p else 1) else 0
-  | .loss m a b => M.ofFn n fun r k =>
-      -- rotation dilation on (m, n-1): [[a, b], [-b, a]]  (repaired code, F20)
-      if r = m ∧ k = m then a else if r = n - 1 ∧ k = n - 1 then a
-      else if r = m ∧ k = n - 1 then b else if r = n - 1 ∧ k = m then -b
-      else if r = k then 1 else 0
+  | .bs m1 m2 c s .rx => embed2 n m1 m2 c (i * s) (i * s) c
+  | .bs m1 m2 c s .h => embed2 n m1 m2 c s s (-c)
+  | .ps m p => embed1 n m p
+  -- rotation dilation on (m, n-1): [[a, b], [-b, a]]  (repaired code, F20)
+  | .loss m a b => embed2 n m (n - 1) a b (-b) a
   | .barrier _ => M.one n
   | .swaps σ => permMat σ n
-  | .unitary m u => M.ofFn n fun r k =>
-      if m ≤ r ∧ r < m + u.n ∧ m ≤ k ∧ k < m + u.n then u.get (r - m) (k - m)
-      else if r = k then 1 else 0
+  | .unitary m u => embedBlock n m u
 
 /-- compile state: current matrix (dimension = n + loss modes) -/
 def compilePrim (i : K) (U : M K) : Prim K → M K
